@@ -68,8 +68,9 @@ func parseUsemtlLine(components []string) (string, error) {
 }
 
 func parseGroupLine(components []string) (string, error) {
+	// A bare "g" selects the default (unnamed) group
 	if len(components) == 1 {
-		return "", errors.New("g line is empty")
+		return "", nil
 	}
 
 	return strings.Join(components[1:], " "), nil
